@@ -3,6 +3,7 @@ package compiler
 import (
 	"encoding/json"
 	"fmt"
+	"math"
 
 	"github.com/risor-io/risor/op"
 )
@@ -82,9 +83,20 @@ func (c *Code) CodeName() string {
 	return c.name
 }
 
-func (c *Code) addName(name string) uint16 {
+// addName returns the index of the name in the code's table of names, adding
+// it if it is not there yet. The second result is false when the table is
+// full: an index is a 16-bit instruction operand.
+func (c *Code) addName(name string) (uint16, bool) {
+	for i, existing := range c.names {
+		if existing == name {
+			return uint16(i), true
+		}
+	}
+	if len(c.names) >= math.MaxUint16 {
+		return 0, false
+	}
 	c.names = append(c.names, name)
-	return uint16(len(c.names) - 1)
+	return uint16(len(c.names) - 1), true
 }
 
 func (c *Code) IsNamed() bool {
